@@ -811,4 +811,319 @@ theorem own_scope_variant_cuts_descendants_short :
       rw [hr] at this
       simpa using this
 
+
+/-! ### "Closed" is reported only when drained (produce-then-close races)
+
+A producer that sends its last values and closes at once, while consumers are waiting on the
+momentarily empty channel: the consumer's receive must not answer "closed" while a value is
+queued.  In the machine (= the code as it is) the answer rests on ONE atomic test. -/
+
+/-- **A receive is "atomic test first"**: `<-c` answers nil exactly when the queue is empty
+    AND the channel is closed at the moment of the step; otherwise it dequeues or is not
+    enabled (for every state and thread). -/
+theorem recv_is_atomic_test (c : Chan) (t : Nat) : step c (.recv t) = recvAtomic c t := by
+  unfold recvAtomic closedAndDrained
+  simp only [step]
+  split
+  · rfl
+  · cases hb : c.buf with
+    | nil => cases hc : c.closed <;> simp
+    | cons v rest => simp
+
+/-- the same for the first half of a `range` step -/
+theorem next_is_atomic_test (c : Chan) (t : Nat) : step c (.next t) = nextAtomic c t := by
+  unfold nextAtomic closedAndDrained
+  simp only [step]
+  split
+  · rfl
+  · cases hb : c.buf with
+    | nil => cases hc : c.closed <;> simp
+    | cons v rest => simp
+
+/-- **"Closed" is reported only when drained** (every schedule — any length, any number of
+    threads, every interleaving, every buffer size —, every action of every thread): if in a
+    reachable state a step reports "closed" (a receive answers nil, a `range` step ends) then
+    at that moment the queue is empty and the channel is closed, every value the channel ever
+    accepted has been dequeued, and the step changes nothing.  In particular no receive
+    reports "closed" while a value is still buffered. -/
+theorem closed_reported_only_when_drained (cap : Nat) (ops : List Op) (c : Chan)
+    (h : run (init cap) ops = some c) (o : Op) (c' : Chan) (ob : Obs)
+    (hs : step c o = some (c', ob)) (hr : ob.reportsClosed = true) :
+    c.buf = [] ∧ c.closed = true ∧ values c.deq = c.sent ∧ c' = c := by
+  have hf := fifo_conservation cap ops c h
+  have key : c.buf = [] ∧ c.closed = true ∧ c' = c := by
+    cases o with
+    | send t v =>
+      simp only [step] at hs
+      split at hs
+      · cases hs
+      · split at hs
+        · simp only [Option.some.injEq, Prod.mk.injEq] at hs; rw [← hs.2] at hr; cases hr
+        · split at hs
+          · simp only [Option.some.injEq, Prod.mk.injEq] at hs; rw [← hs.2] at hr; cases hr
+          · cases hs
+    | recv t =>
+      rw [recv_is_atomic_test] at hs
+      unfold recvAtomic at hs
+      split at hs
+      · cases hs
+      · split at hs
+        · rename_i hcd
+          simp only [Option.some.injEq, Prod.mk.injEq] at hs
+          simp only [closedAndDrained, Bool.and_eq_true, List.isEmpty_iff] at hcd
+          exact ⟨hcd.1, hcd.2, hs.1.symm⟩
+        · split at hs
+          · simp only [Option.some.injEq, Prod.mk.injEq] at hs; rw [← hs.2] at hr; cases hr
+          · cases hs
+    | close t =>
+      simp only [step] at hs
+      split at hs
+      · cases hs
+      · split at hs <;>
+          (simp only [Option.some.injEq, Prod.mk.injEq] at hs; rw [← hs.2] at hr; cases hr)
+    | next t =>
+      rw [next_is_atomic_test] at hs
+      unfold nextAtomic at hs
+      split at hs
+      · cases hs
+      · split at hs
+        · rename_i hcd
+          simp only [Option.some.injEq, Prod.mk.injEq] at hs
+          simp only [closedAndDrained, Bool.and_eq_true, List.isEmpty_iff] at hcd
+          exact ⟨hcd.1, hcd.2, hs.1.symm⟩
+        · split at hs
+          · simp only [Option.some.injEq, Prod.mk.injEq] at hs; rw [← hs.2] at hr; cases hr
+          · cases hs
+    | entry t =>
+      simp only [step] at hs
+      split at hs
+      · split at hs <;>
+          (simp only [Option.some.injEq, Prod.mk.injEq] at hs; rw [← hs.2] at hr; cases hr)
+      · cases hs
+    | peek t =>
+      simp only [step] at hs
+      split at hs
+      · cases hs
+      · split at hs <;>
+          (simp only [Option.some.injEq, Prod.mk.injEq] at hs; rw [← hs.2] at hr; cases hr)
+    | handoff s r v iter =>
+      simp only [step] at hs
+      split at hs
+      · cases hs
+      · cases iter <;>
+          (simp only [Bool.false_eq_true, ↓reduceIte, Option.some.injEq, Prod.mk.injEq] at hs
+           rw [← hs.2] at hr; cases hr)
+  obtain ⟨hb, hc, he⟩ := key
+  refine ⟨hb, hc, ?_, he⟩
+  rw [hb, List.append_nil] at hf
+  exact hf
+
+/-- in a closed and drained channel nothing is accepted or dequeued any more -/
+theorem closed_drained_frozen (c c' : Chan) (o : Op) (ob : Obs) (hc : c.closed = true) (hb : c.buf = [])
+    (h : step c o = some (c', ob)) : c'.sent = c.sent ∧ c'.deq = c.deq := by
+  have he := step_eff c c' o ob h
+  cases he with
+  | same => exact ⟨rfl, rfl⟩
+  | send t v =>
+    simp only [step] at h
+    split at h
+    · cases h
+    · simp only [hc, Option.some.injEq, Prod.mk.injEq] at h
+      have := congrArg Chan.buf h.1
+      simp [hb] at this
+  | close t => exact ⟨rfl, rfl⟩
+  | recv t v rest _ hb' => rw [hb] at hb'; cases hb'
+  | next t v rest _ hb' => rw [hb] at hb'; cases hb'
+  | entry t v _ _ => exact ⟨rfl, rfl⟩
+  | entryNone t _ _ => exact ⟨rfl, rfl⟩
+  | handRecv s r v _ _ =>
+    simp only [step] at h
+    split at h
+    · cases h
+    · rename_i hx; simp [hc] at hx
+  | handNext s r v _ _ =>
+    simp only [step] at h
+    split at h
+    · cases h
+    · rename_i hx; simp [hc] at hx
+
+/-- **A "closed" report is final** (every continuation of every schedule): once some step has
+    reported "closed" in a reachable state `c`, whatever any thread does afterwards — in any
+    order and number — nothing is accepted and nothing is dequeued any more and the queue stays
+    empty: the values accepted up to the report are all the values there will ever be, and they
+    had all been dequeued.  (So a consumer that stops at nil / at the end of its `range` has
+    missed nothing.) -/
+theorem closed_report_is_final (cap : Nat) (ops : List Op) (c : Chan)
+    (h : run (init cap) ops = some c) (o : Op) (c' : Chan) (ob : Obs)
+    (hs : step c o = some (c', ob)) (hr : ob.reportsClosed = true) (rest : List Op) (cf : Chan)
+    (hrest : run c' rest = some cf) :
+    cf.sent = c.sent ∧ cf.deq = c.deq ∧ cf.buf = [] ∧ values cf.deq = cf.sent := by
+  obtain ⟨hb, hc, hall, he⟩ := closed_reported_only_when_drained cap ops c h o c' ob hs hr
+  subst he
+  have key : ∀ (rest : List Op) (a b : Chan), run a rest = some b → a.closed = true → a.buf = [] →
+      b.sent = a.sent ∧ b.deq = a.deq ∧ b.buf = [] := by
+    intro rest
+    induction rest with
+    | nil => intro a b hab _ hab2; simp only [run, Option.some.injEq] at hab; subst hab; exact ⟨rfl, rfl, hab2⟩
+    | cons x xs ih =>
+      intro a b hab hca hba
+      simp only [run] at hab
+      split at hab
+      · rename_i a1 ob1 hst
+        obtain ⟨hc1, hb1⟩ := closed_drained_stable a a1 x ob1 hca hba hst
+        obtain ⟨hs1, hd1⟩ := closed_drained_frozen a a1 x ob1 hca hba hst
+        obtain ⟨r1, r2, r3⟩ := ih a1 b hab hc1 hb1
+        exact ⟨r1.trans hs1, r2.trans hd1, r3⟩
+      · cases hab
+  obtain ⟨r1, r2, r3⟩ := key rest c' cf hrest hc hb
+  exact ⟨r1, r2, r3, by rw [r1, r2]; exact hall⟩
+
+/-- **… so everything sent was handed out** when "closed" is reported (every schedule in which
+    at most one thread iterates — the guard of the recorded finding — and no iteration step is
+    half-finished): at that moment the values handed to script code are, as a multiset, exactly
+    the values the channel accepted. -/
+theorem closed_report_all_delivered (cap : Nat) (ops : List Op) (hg : atMostOneIterator ops = true)
+    (c : Chan) (h : run (init cap) ops = some c) (hp : c.pend = []) (o : Op) (c' : Chan) (ob : Obs)
+    (hs : step c o = some (c', ob)) (hr : ob.reportsClosed = true) : (values c.deliv).Perm c.sent := by
+  obtain ⟨hb, _, _, _⟩ := closed_reported_only_when_drained cap ops c h o c' ob hs hr
+  have := (C10_partial_guard cap ops hg c h hp).1
+  unfold ExactlyOnce at this
+  rw [hb, List.append_nil] at this
+  exact this
+
+/-- the race of the contrast machine: the consumer (thread 1) finds the queue empty; the
+    producer (thread 0) sends its last value and closes; the consumer then reads the flag -/
+def pollThenFlagRace : List Op2 :=
+  [.poll 1 false, .base (.send 0 (0, 0)), .base (.close 0), .flag 1 false]
+
+/-- **Reading "empty" and "closed" at two moments loses a value** (contrast; this is why the
+    test must be one): in the two-step variant a schedule exists — buffer size 1, one producer,
+    one consumer — after which the consumer has been told "closed" (nil) although the value the
+    channel accepted is still queued and has been handed to nobody.  The machine of the code
+    as it is admits no such state (`closed_reported_only_when_drained`). -/
+theorem two_step_variant_loses_a_value :
+    ∃ (ops : List Op2) (s : Chan2) (obs : List (Option Obs)),
+      run2 { c := init 1 } ops = some (s, obs) ∧ obs.getLast? = some (some .nil) ∧
+      s.c.sent = [(0, 0)] ∧ s.c.buf = [(0, 0)] ∧ s.c.deliv = [] := by
+  refine ⟨pollThenFlagRace, ?_⟩
+  cases hr : run2 { c := init 1 } pollThenFlagRace with
+  | none => exact absurd hr (by decide)
+  | some r =>
+    have : (run2 { c := init 1 } pollThenFlagRace).map (fun r => (r.2.getLast?, r.1.c.sent, r.1.c.buf, r.1.c.deliv))
+        = some (some (some .nil), [(0, 0)], [(0, 0)], []) := by rfl
+    rw [hr] at this
+    simp only [Option.map_some, Option.some.injEq, Prod.mk.injEq] at this
+    exact ⟨r.1, r.2, rfl, this.1, this.2.1, this.2.2.1, this.2.2.2⟩
+
+/-- the same race with a `range` loop: the iteration ends while a value is queued -/
+example : (run2 { c := init 2 } [.poll 1 true, .base (.send 0 (0, 0)), .base (.send 0 (0, 1)), .base (.close 0), .flag 1 true]).map
+    (fun r => (r.2.getLast?, r.1.c.buf)) = some (some (some .nextEnd), [(0, 0), (0, 1)]) := by decide
+
+/-- the machine of the code on the same race: the consumer's receive is not enabled on the
+    empty open channel, and after send and close it gets the value, then nil -/
+example : (trace step (init 1) [.recv 1, .send 0 (0, 0), .close 0, .recv 1, .recv 1]).1
+    = [none, some .sendOk, some .closeOk, some (.val (0, 0)), some .nil] := by decide
+
+/-! ### Every spawned callable runs on a VM of its own -/
+
+/-- invariant of the VM machine of the code as it is: thread `t` runs on VM `t`, there are as
+    many VMs as threads, and each VM's register counts exactly its thread's steps -/
+def VInv (s : VMs) : Prop := s.vmOf = List.range s.vmOf.length ∧ s.ip.length = s.vmOf.length ∧ s.ip = s.pos
+
+theorem vstep_vinv (s s' : VMs) (o : VOp) (hi : VInv s) (h : vstep s o = some s') : VInv s' := by
+  obtain ⟨hv, hl, hp⟩ := hi
+  cases o with
+  | spawn p k =>
+    simp only [vstep, vstepWith, Bool.true_or, ↓reduceIte] at h
+    split at h
+    · simp only [Option.some.injEq] at h
+      subst h
+      refine ⟨?_, by simp [hl], by simp [hp]⟩
+      simp only [List.length_append, List.length_cons, List.length_nil, Nat.zero_add, List.range_succ]
+      rw [← hv, hl]
+    · cases h
+  | exec t =>
+    simp only [vstep, vstepWith] at h
+    split at h
+    · rename_i ht
+      simp only [Option.some.injEq] at h
+      subst h
+      have hvt : s.vmOf.getD t 0 = t := by
+        rw [hv, List.getD_eq_getElem?_getD, List.getElem?_range (by simpa using ht)]
+        rfl
+      refine ⟨hv, by simp [hl], ?_⟩
+      simp only [hvt, hp]
+    · cases h
+
+theorem vrun_vinv (ops : List VOp) (s s' : VMs) (hi : VInv s) (h : vrun s ops = some s') : VInv s' := by
+  induction ops generalizing s with
+  | nil => simp only [vrun, vrunWith, Option.some.injEq] at h; subst h; exact hi
+  | cons o os ih =>
+    simp only [vrun, vrunWith] at h
+    split at h
+    · rename_i s1 hst
+      exact ih s1 (vstep_vinv s s1 o hi hst) h
+    · cases h
+
+/-- **No two threads share a VM** (every schedule of spawns — of compiled functions, builtins
+    and bound methods alike, by any thread, through any spawn form — and script steps, the code
+    as it is): in every reachable state two different threads run their script code on
+    different VMs. -/
+theorem threads_have_distinct_vms (ops : List VOp) (s : VMs) (h : vrun {} ops = some s)
+    (t u : Nat) (ht : t < s.vmOf.length) (hu : u < s.vmOf.length) (hne : t ≠ u) :
+    s.vmOf.getD t 0 ≠ s.vmOf.getD u 0 := by
+  obtain ⟨hv, _, _⟩ := vrun_vinv ops {} s ⟨rfl, rfl, rfl⟩ h
+  have e : ∀ x, x < s.vmOf.length → s.vmOf.getD x 0 = x := by
+    intro x hx
+    rw [hv, List.getD_eq_getElem?_getD, List.getElem?_range (by simpa using hx)]
+    rfl
+  rw [e t ht, e u hu]
+  exact hne
+
+/-- the same as the decidable Spec predicate the oracle evaluates -/
+theorem threads_have_distinct_vms_nodup (ops : List VOp) (s : VMs) (h : vrun {} ops = some s) :
+    distinctVMs s = true := by
+  obtain ⟨hv, _, _⟩ := vrun_vinv ops {} s ⟨rfl, rfl, rfl⟩ h
+  simp only [distinctVMs, decide_eq_true_eq]
+  rw [hv]
+  exact List.nodup_range
+
+/-- **A thread's VM is moved by that thread only** (every schedule, the code as it is): in
+    every reachable state the register of the VM thread `t` runs on counts exactly the script
+    steps `t` itself has executed — no callback of any spawned builtin, bound method or function
+    has pushed a frame on, or moved the registers of, another thread's VM (the spawner's own
+    computation is unaffected by what it spawned). -/
+theorem vm_moved_by_own_thread_only (ops : List VOp) (s : VMs) (h : vrun {} ops = some s)
+    (t : Nat) (ht : t < s.vmOf.length) : s.ip.getD (s.vmOf.getD t 0) 0 = s.pos.getD t 0 := by
+  obtain ⟨hv, _, hp⟩ := vrun_vinv ops {} s ⟨rfl, rfl, rfl⟩ h
+  have e : s.vmOf.getD t 0 = t := by
+    rw [hv, List.getD_eq_getElem?_getD, List.getElem?_range (by simpa using ht)]
+    rfl
+  rw [e, hp]
+
+/-- **Without a clone for builtins the statement is false** (contrast; this is why the clone is
+    in the model): in the variant where only compiled functions get a VM of their own, the main
+    program spawns a bound method (`items.map.spawn(f)`) and the first callback of that thread
+    runs on the main program's VM — two threads share VM 0, and its register has moved although
+    the main program has not executed a step. -/
+theorem shared_vm_variant_derails_spawner :
+    ∃ (ops : List VOp) (s : VMs), vrunWith false {} ops = some s ∧ distinctVMs s = false ∧ ownProgress s = false ∧
+      s.vmOf.getD 1 0 = s.vmOf.getD 0 0 ∧ s.ip.getD 0 0 = 1 ∧ s.pos.getD 0 0 = 0 := by
+  refine ⟨[.spawn 0 .method, .exec 1], ?_⟩
+  cases hr : vrunWith false {} [.spawn 0 .method, .exec 1] with
+  | none => exact absurd hr (by decide)
+  | some s =>
+    have : (vrunWith false {} [.spawn 0 .method, .exec 1]).map
+        (fun s => (distinctVMs s, ownProgress s, s.vmOf.getD 1 0, s.vmOf.getD 0 0, s.ip.getD 0 0, s.pos.getD 0 0))
+        = some (false, false, 0, 0, 1, 0) := by decide
+    rw [hr] at this
+    simp only [Option.map_some, Option.some.injEq, Prod.mk.injEq] at this
+    exact ⟨s, rfl, this.1, this.2.1, by rw [this.2.2.1, this.2.2.2.1], this.2.2.2.2.1, this.2.2.2.2.2⟩
+
+/-- non-vacuity: a tree of spawns of every kind with steps interleaved — five threads, five VMs,
+    every register equal to its thread's own step count -/
+example : (vrun {} [.spawn 0 .method, .exec 1, .exec 0, .spawn 0 .builtin, .spawn 1 .fn, .exec 2, .exec 1, .spawn 3 .method, .exec 4, .exec 0]).map
+    (fun s => (s.vmOf, s.ip, s.pos, distinctVMs s, ownProgress s))
+      = some ([0, 1, 2, 3, 4], [2, 2, 1, 0, 1], [2, 2, 1, 0, 1], true, true) := by decide
+
 end Risor.C10
